@@ -7,7 +7,7 @@ import ast
 from .. import AnalysisError
 from ..fold import RegexVal, is_unknown
 from ..srcmodel import (walk_local, call_name, dotted, norm, enclosing_func,
-                        parent, enclosing_stmt)
+                        parent, enclosing_stmt, literals)
 
 RE_FUNCS = ('search', 'match', 'fullmatch', 'sub', 'subn', 'split',
             'findall', 'finditer', 'compile')
@@ -325,4 +325,89 @@ def embedded_case_consistency(ctx, modules=None, rule='RX-FLAGS'):
                   f"{a['name']} is compiled without IGNORECASE but embedded in the case-insensitive "
                   f"{hosts[0]['name']}: {w!r} is matched there and rejected by the stand-alone use in {sites}",
                   key=f"{rule}|{a['name']}|case-closed", where=a['where'])
+    return n
+
+
+def clause_purity(ctx, funcs, tags=('twp', 'rge', 'sec'), rule='SIB'):
+    """
+    Copy/paste slips in parallel clauses: a boolean expression with one
+    clause per component (twp / rge / sec), where every other clause reads
+    only names of its own component and one clause reads names of two
+    components.  Empty baseline on the pinned tree.
+    """
+    import re as _re
+
+    def tagset(e):
+        out = set()
+        for n in ast.walk(e):
+            ident = n.id if isinstance(n, ast.Name) else n.attr if isinstance(n, ast.Attribute) \
+                else n.value if isinstance(n, ast.Constant) and isinstance(n.value, str) else None
+            if ident:
+                for tok in _re.split(r'[_\W]+', ident.lower()):
+                    if tok in tags:
+                        out.add(tok)
+        return out
+    n = 0
+    for fi in funcs:
+        for b in walk_local(fi.node):
+            if not (isinstance(b, ast.BoolOp) and len(b.values) >= 3):
+                continue
+            ts = [tagset(v) for v in b.values]
+            pure = [next(iter(t)) for t in ts if len(t) == 1]
+            if len(pure) < 2 or len(set(pure)) != len(pure):
+                continue
+            n += 1
+            mixed = [(v, t) for v, t in zip(b.values, ts) if len(t) > 1]
+            construct = f"{fi.qualname}: each clause of `{norm(b)[:50]}...` reads its own component only"
+            if not mixed:
+                ctx.ok(rule, construct, f"{len(ts)} parallel clauses")
+                continue
+            for v, t in mixed:
+                own = sorted(t - set(pure))
+                other = sorted(t & set(pure))
+                ctx.violation(rule, construct,
+                              f"the clause `{norm(v)[:70]}` belongs to {own or sorted(t)} but also reads {other}: its "
+                              f"sibling clauses each read one component only (copy/paste slip)",
+                              key=f"{rule}|{fi.qualname}|clause|{','.join(sorted(t))}", where=loc(fi, v))
+    return n
+
+
+def outparam_truthiness(ctx, funcs, rule='SIB'):
+    """
+    A container parameter that the function only *adds to* (subscript store,
+    append / update / setdefault ...; never pop / remove) is an out-parameter
+    the caller wants filled.  Testing it by truthiness (`if not P`) takes an
+    empty container the caller handed in for "nothing given"; only `P is
+    None` tells the two apart.  Empty baseline on the pinned tree.
+    """
+    ADD = {'append', 'extend', 'insert', 'update', 'setdefault', 'add'}
+    TAKE = {'pop', 'remove', 'clear', 'popitem'}
+    n = 0
+    for fi in funcs:
+        params = set(fi.params()) - {'self', 'cls'}
+        filled, taken = {}, set()
+        for x in walk_local(fi.node):
+            if isinstance(x, ast.Subscript) and isinstance(x.value, ast.Name) and x.value.id in params:
+                if isinstance(x.ctx, ast.Store):
+                    filled.setdefault(x.value.id, x)
+                elif isinstance(x.ctx, ast.Del):
+                    taken.add(x.value.id)
+            if isinstance(x, ast.Call) and isinstance(x.func, ast.Attribute) and isinstance(x.func.value, ast.Name) \
+                    and x.func.value.id in params:
+                if x.func.attr in ADD:
+                    filled.setdefault(x.func.value.id, x)
+                elif x.func.attr in TAKE:
+                    taken.add(x.func.value.id)
+        for p in sorted(set(filled) - taken):
+            n += 1
+            tests = [t for t in walk_local(fi.node) if isinstance(t, (ast.If, ast.IfExp, ast.While))
+                     and any(txt == p for _e, txt, _pol in literals([(t.test, True)]))]
+            construct = f"{fi.qualname}: out-parameter `{p}` is told from None by identity, not truthiness"
+            if tests:
+                ctx.violation(rule, construct,
+                              f"`{norm(tests[0].test)}` treats an empty `{p}` like a missing one although the function "
+                              f"fills `{p}` in place (`{norm(filled[p])[:40]}`): an empty container passed by the caller "
+                              f"is never filled", key=f"{rule}|{fi.qualname}|truthy-outparam|{p}", where=loc(fi, tests[0]))
+            else:
+                ctx.ok(rule, construct, f"filled by `{norm(filled[p])[:40]}`")
     return n
